@@ -1,4 +1,5 @@
 import Martian.Lemmas.H2Relay
+import Martian.Generated.H2Relay
 /-!
 C08 — HTTP/2 relay delivers each stream's frames faithfully for any framing and order.
 
@@ -328,5 +329,24 @@ theorem priority_flag_partial (prio : Option Prio) (h : prio ≠ some Prio.zero)
 /-- F08d: a priority present with dependency 0, non-exclusive, weight field 0 loses its flag. -/
 theorem priority_flag_counterexample : wirePrio ((some Prio.zero).getD Prio.zero) ≠ some Prio.zero := by
   decide
+
+/-! ## Facts regenerated from `/repo` on every run (`go/cmd/vextract/facts_c08.go`) -/
+
+/-- The protocol constants of `h2/relay.go` are the ones the model starts from and subtracts. -/
+theorem facts_relay_constants :
+    Generated.H2Relay.initialMaxFrameSize = ({} : Relay).maxFrame ∧
+    Generated.H2Relay.defaultInitialWindowSize = ({} : Relay).initWin ∧
+    (Generated.H2Relay.defaultInitialWindowSize : Int) = ({} : Relay).connWin ∧
+    Generated.H2Relay.headersPriorityMetadataLength = 5 ∧ Generated.H2Relay.pushPromiseMetadataLength = 4 := by
+  decide
+
+/-- `processFrame` stores the HEADERS frame's own END_STREAM flag and `headerContinuation.complete`
+passes that stored flag on (F08a fix), as `dispatch` does. -/
+theorem facts_continued_headers_keep_end_stream : Generated.H2Relay.continuedHeadersKeepEndStream = true := by
+  decide
+
+/-- `forwardPreface` reads the whole 24-byte preface (F08c fix); the transport may deliver it in
+arbitrarily small pieces. Outside the relay model; visible only end to end. -/
+theorem facts_preface_read_in_full : Generated.H2Relay.prefaceReadInFull = true := by decide
 
 end Martian.Props.C08
